@@ -15,6 +15,15 @@ SEED = "/tmp/seed"
 WT = "/tmp/confirm_wt"
 OUT = "/verif/seeded"
 
+def touch_patched(patch, wt):
+    """after `git checkout -- .` make sure cargo sees the restored files as changed (mtime granularity)"""
+    import time as _t
+    _t.sleep(1.1)
+    for m in re.finditer(r"^\+\+\+ b/(\S+)", open(patch).read(), re.M):
+        f = os.path.join(wt, m.group(1))
+        if os.path.exists(f):
+            os.utime(f, None)
+
 def sh(cmd, cwd=None, timeout=1800):
     p = subprocess.run(cmd, shell=True, cwd=cwd, capture_output=True, text=True, timeout=timeout,
                        env=dict(os.environ, RUST_BACKTRACE="0", CARGO_NET_OFFLINE="true"))
@@ -67,6 +76,7 @@ def main():
             rc_mut, out_mut = sh("bash %s %s/target/debug/delta" % (demo, WT), cwd=d, timeout=300)
             rec["ran"].append("demo.sh on the changed binary -> exit %d" % rc_mut)
             sh("git checkout -- .", cwd=WT)
+            touch_patched(patch, WT)
             rc, out = sh("cargo build --offline 2>&1 | tail -3", cwd=WT)
             rc_orig, out_orig = sh("bash %s %s/target/debug/delta" % (demo, WT), cwd=d, timeout=300)
             rec["ran"].append("demo.sh on the unchanged binary -> exit %d" % rc_orig)
